@@ -9,6 +9,7 @@ Counter f_stall("fault.sched.stall");
 Counter f_clockjump("fault.clock.jump");
 Counter p_contended("probe.lock_contended");
 Counter f_lock_timeout("fault.lock.timeout");
+Counter f_eintr("fault.sem.eintr");
 } // namespace lsim
 
 namespace
@@ -104,6 +105,7 @@ bool parse_device(const std::string& d, std::vector<DevRec>& out)
 }
 
 Counter p_nested("probe.statement_issued_from_inside_a_streamed_callable");
+Counter p_bound("probe.statement_bound_to_a_reference_and_continued");
 Counter p_moved_named("probe.named_stream_moved_to_a_new_object");
 
 class LogEngine : public Engine
@@ -170,6 +172,7 @@ public:
         p.knobs.emplace_back("sched_seed", static_cast<int64_t>(rng.next() >> 16));
         p.knobs.emplace_back("alloc_yield", rng.chance(1, 3));
         p.knobs.emplace_back("lock_timeout8", rng.chance(1, 2) ? 0 : rng.range(1, 4));
+        p.knobs.emplace_back("eintr8", rng.chance(1, 2) ? 0 : rng.range(1, 3));
         // stream knobs
         static const int BUF[] = { 0, 0, 1, 3, 7, 16, 64, 300, 4096 };
         p.knobs.emplace_back("outbuf", BUF[rng.below(9)]);
@@ -209,7 +212,7 @@ public:
             }
             for (int k = 0; k < n; k++)
             {
-                static const char kinds[] = "sskhiuldbppccgfxnmzryaHAWN";
+                static const char kinds[] = "sskhiuldbppccgfxnmzryaHAWNQF";
                 char kd = kinds[rng.below(sizeof kinds - 1)];
                 if (strchr("cgfnmryaN", kd) && !lazy_ok)
                     kd = 's';
@@ -261,7 +264,7 @@ public:
                     op.a[0] = t;
                     op.a[1] = sev;
                     op.a[2] = tg;
-                    op.a[3] = rng.chance(1, 12);
+                    op.a[3] = (rng.chance(1, 12) ? 1 : 0) + (rng.chance(1, 6) ? 2 : 0);
                     op.s = gen_items();
                     prog[static_cast<size_t>(t)].push_back(op);
                 }
@@ -517,6 +520,7 @@ public:
         sch.alloc_yield = plan.knob("alloc_yield", 0) != 0;
         sch.timeout_num = static_cast<unsigned>(plan.knob("lock_timeout8", 0) % 8);
         sch.timeout_state = sseed ^ 0x71AE;
+        sch.eintr_num = static_cast<unsigned>(plan.knob("eintr8", 0) % 8);
         sch.clock_state = sseed ^ 0xC10C;
 
         auto th_snapshot = [&] { return std::array<int, 3>{ g.th[0], g.th[1], g.th[2] }; };
@@ -625,7 +629,13 @@ public:
                             try
                             {
                                 FaultWindow w;
-                                le.expr_stmt(s.sev, TAGS[s.tag], pc, s.items);
+                                if ((op.a[3] & 2) && !s.noid)
+                                {
+                                    p_bound++;
+                                    le.bound_stmt(s.sev, TAGS[s.tag], pc, s.items);
+                                }
+                                else
+                                    le.expr_stmt(s.sev, TAGS[s.tag], pc, s.items);
                             }
                             catch (CallableThrow&)
                             {
@@ -786,6 +796,9 @@ public:
         if (g_static_init_statements)
         {
             p_static_init++;
+            if (StaticCfgFilter::min_severity() != nl::severity_level::error)
+                return flag("C05/spurious", "static-initialisation threshold-configured-early", -1,
+                            "a runtime threshold set during static initialisation was lost again (the filter accepts what the program configured away)");
             if (g_static_init_deliveries && LOGSIM_MIN <= 4)
                 return flag("C05/spurious", "static-initialisation stateful-user-filter", -1,
                             std::to_string(g_static_init_deliveries) + " statement(s) issued during static initialisation were delivered although the logger's filter rejects them");
@@ -1204,6 +1217,7 @@ extern "C"
 
 // Condition variables are used through libstdc++.so, whose calls --wrap cannot redirect; these
 // definitions in the executable interpose the libc symbols for the whole process instead.
+#include <cerrno>
 #include <dlfcn.h>
 namespace
 {
@@ -1254,6 +1268,73 @@ extern "C"
         if (!s.in_sim())
             return real(c);
         return s.cond_signal(c, true);
+    }
+}
+
+// POSIX semaphores, interposed by symbol like the condition variables
+namespace lsim
+{
+int real_sem_wait(sem_t* s)
+{
+    static auto real = real_sym<int (*)(sem_t*)>("sem_wait");
+    return real(s);
+}
+int real_sem_post(sem_t* s)
+{
+    static auto real = real_sym<int (*)(sem_t*)>("sem_post");
+    return real(s);
+}
+} // namespace lsim
+static int sem_initial(sem_t* s)
+{
+    static auto real = real_sym<int (*)(sem_t*, int*)>("sem_getvalue");
+    int v = 0;
+    real(s, &v);
+    return v < 0 ? 0 : v;
+}
+extern "C"
+{
+    int sem_wait(sem_t* sm)
+    {
+        Scheduler& s = Scheduler::get();
+        if (!s.in_sim())
+            return lsim::real_sem_wait(sm);
+        int err = 0;
+        int r = s.sem_down(sm, sem_initial(sm), 0, &err);
+        if (r)
+            errno = err;
+        return r;
+    }
+    int sem_trywait(sem_t* sm)
+    {
+        static auto real = real_sym<int (*)(sem_t*)>("sem_trywait");
+        Scheduler& s = Scheduler::get();
+        if (!s.in_sim())
+            return real(sm);
+        int err = 0;
+        int r = s.sem_down(sm, sem_initial(sm), 1, &err);
+        if (r)
+            errno = err;
+        return r;
+    }
+    int sem_timedwait(sem_t* sm, const struct timespec* ts)
+    {
+        static auto real = real_sym<int (*)(sem_t*, const struct timespec*)>("sem_timedwait");
+        Scheduler& s = Scheduler::get();
+        if (!s.in_sim())
+            return real(sm, ts);
+        int err = 0;
+        int r = s.sem_down(sm, sem_initial(sm), 2, &err);
+        if (r)
+            errno = err;
+        return r;
+    }
+    int sem_post(sem_t* sm)
+    {
+        Scheduler& s = Scheduler::get();
+        if (!s.in_sim())
+            return lsim::real_sem_post(sm);
+        return s.sem_up(sm, sem_initial(sm));
     }
 }
 
